@@ -1,4 +1,4 @@
-import Taskpool.Inv.GoodInv
+import Taskpool.Inv.Count
 /-! # C02 — No task and no capacity is ever lost -/
 namespace Taskpool
 
@@ -36,5 +36,32 @@ theorem C02_capacity_restored (base : Nat) (h : History) (hn : ∀ x ∈ h, x.ad
   have h2 : grantsL p.sem.waiters = 0 := by
     unfold grantsL; rw [List.countP_eq_zero]; intro w hwm; simpa using hw w hwm
   rw [hv]; congr; omega
+
+/-- **slots in use = tasks in flight.** In every reachable state in which no task was `lost` (no `KeyError` in a
+wrapper, no `flush`/`gather_and_close` that dropped an unfinished task — the ghost bit the driver prints and the
+correspondence check watches), the slots not free are exactly the tasks filed as running or cancelled, plus
+slots already granted to a spawner that has not yet been scheduled:
+`free + granted + num_running + num_cancelled = size`. -/
+theorem C02_idle_accounting (base : Nat) (h : History) (hn : ∀ x ∈ h, x.admits noSetSize = true)
+    (i : Nat) (c : Cfg) (p : Pool) (n : Nat)
+    (hc : ((World.init base).run h).cfgs[i]? = some c) (hp : ((World.init base).run h).pools[i]? = some p)
+    (hsz : c.size0 = .fin n) (hl : p.lost = false) :
+    ∃ v, p.sem.value = .fin v ∧ v + grantsL p.sem.waiters + p.running.length + p.cancelledR.length = n := by
+  have hg := (World.reachable goodC_invariant base h hn).inv i c p hc hp n hsz
+  obtain ⟨v, hv, hs⟩ := hg.slot
+  have h1 := inflight_le_held p hg.reg
+  have h2 := held_le_inflight p hg.reg hl
+  exact ⟨v, hv, by omega⟩
+
+/-- every task filed as ended has handed back its slot; every task filed as running or cancelled still holds it -/
+theorem C02_registry_vs_slot (base : Nat) (h : History) (hn : ∀ x ∈ h, x.admits noSetSize = true)
+    (i : Nat) (c : Cfg) (p : Pool) (n : Nat)
+    (hc : ((World.init base).run h).cfgs[i]? = some c) (hp : ((World.init base).run h).pools[i]? = some p)
+    (hsz : c.size0 = .fin n) :
+    (∀ t ∈ p.ended, ∃ tk : PTask, p.tasks[t]? = some tk ∧ tk.released = true) ∧
+    (∀ t ∈ p.running, ∃ tk : PTask, p.tasks[t]? = some tk ∧ tk.released = false) ∧
+    (∀ t ∈ p.cancelledR, ∃ tk : PTask, p.tasks[t]? = some tk ∧ tk.released = false) := by
+  have hg := (World.reachable goodC_invariant base h hn).inv i c p hc hp n hsz
+  exact ⟨hg.reg.fin, hg.reg.run, fun t ht => by obtain ⟨tk, a, b, _⟩ := hg.reg.can t ht; exact ⟨tk, a, b⟩⟩
 
 end Taskpool
